@@ -31,7 +31,7 @@ def replay(check, witnesses, consts, limit=None, rng=None):
     for w, prog, (log, outcome) in zip(ws, progs, results):
         check.programs += 1
         if 'exp' in w:
-            real = [{k: v for k, v in e.items() if k not in ('due', 'never', 'late')} for e in log if e['e'] not in ('fin', 'init')]
+            real = [{k: v for k, v in e.items() if k not in ('due', 'never', 'late', 'neg')} for e in log if e['e'] not in ('fin', 'init')]
             if w.get('term', True):
                 differs = real != w['exp'] or (outcome['k'] == 'ok') != (w.get('fault', '') == '')
             else:       # witness of an intermediate state: the model's events are a prefix
